@@ -61,6 +61,7 @@ pub async fn query_config_list(
 }
 
 pub async fn query_history_config_page(
+    req: HttpRequest,
     request: web::Query<OpsConfigQueryListRequest>,
     config_addr: web::Data<Addr<ConfigActor>>,
 ) -> impl Responder {
@@ -70,6 +71,15 @@ pub async fn query_history_config_page(
             return HttpResponse::InternalServerError().body(err.to_string());
         }
     };
+    let namespace_privilege = user_namespace_privilege!(req);
+    if !namespace_privilege
+        .check_option_value_permission(&(param.tenant.clone().map(Arc::new)), false)
+    {
+        return HttpResponse::Unauthorized().body(format!(
+            "user no such namespace permission: {:?}",
+            &param.tenant
+        ));
+    }
     let cmd = ConfigCmd::QueryHistoryPageInfo(Box::new(param));
     match config_addr.send(cmd).await {
         Ok(res) => {
